@@ -900,6 +900,9 @@ add("C20", "list-action-falls-through", CLI,
 add("C10", "failures-deduplicated-across-codemods", CTXF,
     [("        self._failures_by_codemod.setdefault(codemod_name, []).extend(failed_files)", "        seen = {f for fs in self._failures_by_codemod.values() for f in fs}\n        self._failures_by_codemod.setdefault(codemod_name, []).extend(f for f in failed_files if f not in seen)")],
     "fire", "R-ACCUMULATE-ALL", "add_failures")
+add("C10", "failures-only-logged", CTXF,
+    [("        self._failures_by_codemod.setdefault(codemod_name, []).extend(failed_files)", "        logger.debug(\"%d files failed for %s\", len(failed_files), codemod_name)")],
+    "fire", "R-ACCUMULATE-ALL", "add_failures")
 add("C10", "benign-failures-extended-from-list-copy", CTXF,
     [("        self._failures_by_codemod.setdefault(codemod_name, []).extend(failed_files)", "        recorded = self._failures_by_codemod.setdefault(codemod_name, [])\n        for failed_file in failed_files:\n            recorded.append(failed_file)")],
     "silent")
